@@ -81,6 +81,20 @@ def path_table(chrs, prefix=R.PREFIX):
     return t
 
 
+def saves_table(chrs, table):
+    """`--read_assignments` scenario: the kept save files live in <out>/saves/ with the prefix S.save"""
+    t = dict(table)
+    t["saves/S.save_info"] = ["info"]
+    t["saves/S.save_lock"] = ["lock"]
+    for i, c in enumerate(chrs):
+        t["saves/S.save_%s" % c] = ["save", i]
+        t["saves/S.save_multimappers_%s" % c] = ["multimap", i]
+        for suf, k in [("groups", "groups"), ("bamstat", "bamstat"), ("collected", "collected"), ("read_stat", "readStat"),
+                       ("transcript_stat", "trStat"), ("processed", "processed")]:
+            t["saves/S.save_%s_%s" % (c, suf)] = [k, i]
+    return t
+
+
 def is_log(rel):
     return rel.endswith("isoquant.log") or rel.endswith("isoquant.log.old")
 
@@ -108,6 +122,12 @@ def canon_trace(trace, table):
         else:
             o = "remove"
         muts.append((n, o, mp))
+    # the lock files removed by a fresh run before `.params` is written come from globs: order them as the model does
+    pi = next((i for i, m in enumerate(muts) if m[2] == ["params"]), 0)
+    if pi > 0 and all(m[1] == "remove" for m in muts[:pi]):
+        rank = {"lock": 0, "rgLock": 1, "collected": 2, "processed": 3}
+        head = sorted(muts[:pi], key=lambda m: (rank.get(m[2][0], 9), m[2][1:]))
+        muts = [(muts[i][0], head[i][1], head[i][2]) for i in range(pi)] + muts[pi:]
     return muts, commits, unknown
 
 
@@ -172,7 +192,6 @@ def configs(ctx):
         cfgs.append({"n": 2, "genedb": False, "rg": "inline", "keep_tmp": True, "unmapped": True, "seed": seeds[1]})
         cfgs.append({"n": 4, "genedb": True, "rg": "none", "keep_tmp": False, "unmapped": False, "seed": seeds[2]})
         cfgs.append({"n": 1, "genedb": False, "rg": "none", "keep_tmp": False, "unmapped": True, "seed": seeds[3]})
-        cfgs.append({"n": 2, "genedb": True, "rg": "inline", "keep_tmp": True, "unmapped": False, "seed": seeds[4]})
         cfgs.append({"n": rng.choice([2, 3]), "genedb": rng.random() < 0.5, "rg": rng.choice(["none", "inline", "file"]),
                      "keep_tmp": rng.random() < 0.5, "unmapped": rng.random() < 0.5, "seed": seeds[5]})
     return cfgs
@@ -180,26 +199,53 @@ def configs(ctx):
 
 class Session:
     """one configuration: data set, uninterrupted run under the wrapper, its canonical trace"""
+    kind = "plain"
+    history = None           # description of the history scenario (replay)
+    from_saves = False
 
-    def __init__(self, base, idx, cfg):
+    def __init__(self, base, idx, cfg, data=None):
         self.cfg = cfg
         self.dir = os.path.join(base, "cfg%d" % idx)
-        self.data = R.make_dataset(cfg, os.path.join(self.dir, "data"))
+        self.data = data or R.make_dataset(cfg, os.path.join(self.dir, "data"))
         self.prefix = R.PREFIX
         self.table = path_table(self.data["chrs"], self.prefix)
-        rc, log, tr = R.run_wrapped(os.path.join(self.dir, "clean"), cfg, self.data)
+        self.fs0 = []
+        self.setup()
+        wd = os.path.join(self.dir, "clean")
+        os.makedirs(wd, exist_ok=True)
+        self.prepare(wd)
+        rc, log, tr = R.run_wrapped(wd, cfg, self.data, args=self.args(wd))
         self.clean_rc, self.clean_log = rc, log[-1500:]
         self.trace = tr
-        self.clean_outputs = R.final_outputs(os.path.join(self.dir, "clean", "out")) if rc == 0 else {}
+        self.clean_outputs = R.final_outputs(os.path.join(wd, "out"), self.prefix) if rc == 0 else {}
         self.muts, self.commits, self.unknown = canon_trace(tr, self.table)
         self.results = {}
+
+    # hooks of the history scenarios
+    def setup(self):
+        pass
+
+    def prepare(self, wd):
+        pass
+
+    def args(self, wd):
+        return None
 
     def model_cfg(self):
         ix = {c: i for i, c in enumerate(self.data["chrs"])}
         return {"chrs": list(range(len(ix))), "mchrs": [ix[c] for c in self.data["mchrs"]],
                 "bchrs": [ix[c] for c in self.data["bchrs"]], "genedb": bool(self.cfg.get("genedb", True)),
                 "rg": self.cfg.get("rg", "none"), "keepTmp": bool(self.cfg.get("keep_tmp")),
-                "unmapped": bool(self.cfg.get("unmapped"))}
+                "unmapped": bool(self.cfg.get("unmapped")), "fromSaves": self.from_saves}
+
+    def leftover_fs(self, outdir, good=()):
+        """model file system of the files found in a folder: complete files of another run are `stale`"""
+        res = []
+        for rel in R.snapshot(outdir):
+            mp = self.table.get(rel)
+            if mp is not None:
+                res.append([mp, "good" if mp[0] in good else "stale"])
+        return res
 
     def first_point(self):
         """first kill point inside the quantifier: the mutation after `.params` was written"""
@@ -213,13 +259,25 @@ class Session:
         last = self.muts[-1][0]
         allp = [(k, ph) for k in range(first, last + 1) for ph in "ba"]
         if ctx.tier != "quick":
-            return allp
+            n = getattr(self, "sample_thorough", None)
+            if n is None:
+                return allp
+            early = [(k, ph) for k in range(first, min(first + 30, last + 1)) for ph in "ba"]
+            rest = [p for p in allp if p not in early]
+            return sorted(set(early + ctx.rng.sample(rest, min(len(rest), n))))
         # quick: every lock / first-removal point + a seeded sample
         special = []
         for n, op, p in self.muts:
             if n >= first and (p[0] in ("collected", "processed", "lock", "rgLock") or (op == "remove" and p[0] in ("part", "info", "save"))):
                 special += [(n, "a"), (n, "b")]
         special = sorted(set(special))
+        if self.kind != "plain":
+            # history scenarios: the kill points right after `.params` (stale locks not yet dealt with) + a small sample
+            early = [(k, ph) for k in range(first, min(first + 7, last + 1)) for ph in "ba"]
+            special = [p for p in special if p not in early]
+            special = ctx.rng.sample(special, min(len(special), 8))
+            rest = [p for p in allp if p not in special and p not in early]
+            return sorted(set(early + special + ctx.rng.sample(rest, min(len(rest), 8))))
         if len(special) > 28:
             special = ctx.rng.sample(special, 28)
         rest = [p for p in allp if p not in special]
@@ -229,7 +287,8 @@ class Session:
         key = (k, ph, threads)
         if key not in self.results:
             wd = os.path.join(self.dir, "t_%d%s_%d" % (k, ph, threads))
-            r = R.crash_resume(wd, self.cfg, self.data, k, ph, self.clean_outputs, threads=threads)
+            r = R.crash_resume(wd, self.cfg, self.data, k, ph, self.clean_outputs, threads=threads,
+                               prepare=self.prepare, args=self.args, prefix=self.prefix)
             shutil.rmtree(wd, ignore_errors=True)
             self.results[key] = r
         return self.results[key]
@@ -244,6 +303,124 @@ class Session:
             else:
                 break
         return list(reversed(tail))
+
+
+class DirtySession(Session):
+    """history: the output folder holds the remains of an earlier run on other input (the alternative alignment file),
+    killed at mutation k1; the run under test is started over it with --force"""
+    kind = "dirty"
+
+    def __init__(self, base, idx, cfg, data, k1, ph1):
+        self.k1, self.ph1 = k1, ph1
+        self.history = {"kind": "dirty", "k1": k1, "ph1": ph1}
+        Session.__init__(self, base, idx, cfg, data)
+
+    def setup(self):
+        self.tmpl = os.path.join(self.dir, "earlier")
+        os.makedirs(self.tmpl, exist_ok=True)
+        rc, log, tr = R.run_wrapped(self.tmpl, self.cfg, self.data, crash=(self.k1, self.ph1),
+                                    args=R.cli_args(self.cfg, self.data, alt=True), state="state_earlier")
+        self.earlier_rc = rc
+        self.fs0 = self.leftover_fs(os.path.join(self.tmpl, "out"))
+
+    def prepare(self, wd):
+        shutil.copytree(os.path.join(self.tmpl, "out"), os.path.join(wd, "out"))
+
+    def args(self, wd):
+        return R.cli_args(self.cfg, self.data, force=True)
+
+
+class SavesSession(Session):
+    """`--read_assignments`: an earlier --keep_tmp run (finished, or killed at mutation kA after its read collection)
+    left its save files; the run under test is started from a copy of them in a fresh output folder"""
+    kind = "saves"
+    from_saves = True
+
+    def __init__(self, base, idx, cfg, data, kA):
+        self.kA = kA
+        self.history = {"kind": "saves", "kA": kA}
+        Session.__init__(self, base, idx, cfg, data)
+
+    def setup(self):
+        self.prefix = R.PREFIX + "0"
+        self.table = saves_table(self.data["chrs"], path_table(self.data["chrs"], self.prefix))
+        self.tmpl = os.path.join(self.dir, "earlier")
+        os.makedirs(self.tmpl, exist_ok=True)
+        cfgA = dict(self.cfg, keep_tmp=True)
+        rc, log, tr = R.run_wrapped(self.tmpl, cfgA, self.data, crash=(self.kA, "a") if self.kA else None,
+                                    state="state_earlier")
+        self.earlier_rc = rc
+        self.saves = os.path.join(self.tmpl, "out", R.PREFIX, "aux")
+        tmp = os.path.join(self.dir, "fs0probe")
+        self.prepare(tmp)
+        self.fs0 = self.leftover_fs(os.path.join(tmp, "out"),
+                                    good=("info", "multimap", "save", "lock", "collected", "groups", "bamstat"))
+        shutil.rmtree(tmp, ignore_errors=True)
+
+    def prepare(self, wd):
+        os.makedirs(os.path.join(wd, "out"), exist_ok=True)
+        shutil.copytree(self.saves, os.path.join(wd, "out", "saves"))
+
+    def args(self, wd):
+        return R.cli_args(self.cfg, self.data, saves=os.path.join(wd, "out", "saves", R.PREFIX + ".save"))
+
+
+def pick_earlier_kill(sess, rng, what):
+    """a kill point of the earlier run, by class, from the mutation trace of the plain session"""
+    def first(pred):
+        return next((n for n, o, p in sess.muts if pred(o, p)), None)
+    if what == "collected":      # during read collection: one chromosome has its _collected lock, no stage lock yet
+        return first(lambda o, p: o == "create" and p[0] == "collected"), "a"
+    if what == "lock":           # read collection finished
+        return first(lambda o, p: o == "create" and p[0] == "lock"), "a"
+    if what == "processed":      # model construction: one chromosome has its _processed lock
+        return first(lambda o, p: o == "create" and p[0] == "processed"), "a"
+    if what == "merge":          # merging in progress
+        return first(lambda o, p: o == "remove" and p[0] == "part"), "a"
+    ks = [n for n, o, p in sess.muts if n >= sess.first_point()]
+    return rng.choice(ks), rng.choice("ab")
+
+
+def history_sessions(ctx, plain):
+    """history scenarios built on the data of the plain sessions"""
+    st = _state(ctx)
+    quick = ctx.tier == "quick"
+    res = []
+    cand = [s for s in plain if s.clean_rc == 0 and not s.cfg.get("toy")]
+    if not cand:
+        return res
+    multi = sorted([s for s in cand if len(s.data["chrs"]) >= 2], key=lambda s: len(s.muts)) or cand
+    base_s = multi[0]
+    idx = 100
+    kinds = [ctx.rng.choice(["collected", "lock", "processed", "merge"])] if quick else ["collected", "processed", "random"]
+    if quick and ctx.rng.random() < 0.5:
+        kinds = ["collected"]
+    for what in kinds:
+        k1, ph1 = pick_earlier_kill(base_s, ctx.rng, what)
+        if k1 is None:
+            continue
+        res.append(DirtySession(st["base"], idx, dict(base_s.cfg), base_s.data, k1, ph1))
+        res[-1].ref_outputs = base_s.clean_outputs
+        if what != "collected":
+            res[-1].sample_thorough = 80      # all kill points for the first history, a sample for the others
+        ctx.count("history:dirty:earlier_killed_at_" + what)
+        idx += 1
+    # --read_assignments (no per-chromosome read-group table there: the split needs the alignment files)
+    scfg = dict(base_s.cfg)
+    if scfg.get("rg") == "file":
+        scfg["rg"] = "inline"
+    scfg["keep_tmp"] = False
+    kproc, _ = pick_earlier_kill(base_s, ctx.rng, "processed")
+    # the earlier run is a --keep_tmp run of the same flags: its own trace has the same numbering up to the merges
+    for kA in ([ctx.rng.choice([None, kproc])] if quick else [None, kproc]):
+        if scfg != base_s.cfg and kA is not None:
+            # numbering of the earlier run differs from the plain session's: find the first _processed lock by a dry trace
+            probe = Session(st["base"], idx + 50, dict(scfg, keep_tmp=True), base_s.data)
+            kA = pick_earlier_kill(probe, ctx.rng, "processed")[0]
+        res.append(SavesSession(st["base"], idx, scfg, base_s.data, kA))
+        ctx.count("history:saves:" + ("earlier_finished" if kA is None else "earlier_killed_after_processed"))
+        idx += 1
+    return res
 
 
 def _state(ctx):
@@ -263,6 +440,8 @@ def sessions(ctx):
             st["sessions"].append(Session(st["base"], i, cfg))
             ctx.count("config:n=%d,genedb=%s,rg=%s,keep_tmp=%s,unmapped=%s" % (cfg["n"], cfg.get("genedb"), cfg.get("rg"),
                                                                                cfg.get("keep_tmp"), cfg.get("unmapped")))
+        if os.environ.get("VERIF_C07_VARIANT") != "pinned":     # (the development aid compares the plain scenarios only)
+            st["sessions"] += history_sessions(ctx, list(st["sessions"]))
     return st["sessions"]
 
 
@@ -283,13 +462,13 @@ def correspondence(ctx):
         tag = "cfg%d" % si
         ctx.evaluations += 1
         if sess.clean_rc != 0:
-            ctx.disagree("clean_run", sess.cfg, "ok", {"rc": sess.clean_rc, "log": sess.clean_log})
+            ctx.disagree("clean_run", {"config": sess.cfg, "history": sess.history}, "ok", {"rc": sess.clean_rc, "log": sess.clean_log})
             continue
         mcfg = sess.model_cfg()
         ord1 = sess.cleanup_order(sess.muts)
-        out = ctx.driver.run([vlib.req("C07.run", variant=VARIANT_FIXED, cfg=mcfg, ord=ord1, resume=False, fs=[])])[0]
+        out = ctx.driver.run([vlib.req("C07.run", variant=VARIANT_FIXED, cfg=mcfg, ord=ord1, resume=False, fs=sess.fs0)])[0]
         if "driver_error" in out:
-            ctx.disagree("clean_trace", sess.cfg, out, None)
+            ctx.disagree("clean_trace", {"config": sess.cfg, "history": sess.history}, out, None)
             continue
         m_muts, m_commits = model_muts(out["evs"])
         real_seq = [[o, p] for _, o, p in sess.muts]
@@ -308,10 +487,12 @@ def correspondence(ctx):
             probs += completion_check(sess.muts, sess.commits, m_muts, m_commits)[:5]
         ctx.count("clean_trace_mutations", len(real_seq))
         if probs:
-            ctx.disagree("clean_trace", sess.cfg, probs, None)
+            ctx.disagree("clean_trace", {"config": sess.cfg, "history": sess.history}, probs, None)
             continue
         ctx.mark_nontrivial([tag, "clean_trace"])
-        ctx.sample({"op": "clean_trace", "config": sess.cfg, "mutations": len(real_seq), "model_events": len(out["evs"])})
+        ctx.count("clean_trace:" + sess.kind)
+        ctx.sample({"op": "clean_trace", "config": sess.cfg, "history": sess.history, "mutations": len(real_seq),
+                    "model_events": len(out["evs"])})
         # --- kill points
         pts = sess.points(ctx)
         res = run_points(ctx, sess, pts)
@@ -327,20 +508,22 @@ def correspondence(ctx):
             ordc = sess.cleanup_order(cm)
             ordk = ordc + [p for p in ord1 if p not in ordc] if ordc else ord1
             rm = canon_trace(r.get("resume_trace", []), sess.table)[0]
-            lines.append(vlib.req("C07.verdict", variant=VARIANT_FIXED, cfg=mcfg, ord=ordk, ord2=sess.cleanup_order(rm), k=idx))
-            lines.append(vlib.req("C07.crash", variant=VARIANT_FIXED, cfg=mcfg, ord=ordk, k=idx))
+            lines.append(vlib.req("C07.verdict", variant=VARIANT_FIXED, cfg=mcfg, ord=ordk, ord2=sess.cleanup_order(rm), k=idx,
+                                  fs0=sess.fs0))
+            lines.append(vlib.req("C07.crash", variant=VARIANT_FIXED, cfg=mcfg, ord=ordk, k=idx, fs0=sess.fs0))
             keep.append(((k, ph), r, rm, idx))
         outs = ctx.driver.run(lines)
         for i, ((k, ph), r, rm, idx) in enumerate(keep):
             mo, mfs = outs[2 * i], outs[2 * i + 1]
             ctx.evaluations += 1
             ctx.traces_validated += 1
-            inp = {"config": sess.cfg, "k": k, "phase": ph, "model_index": idx}
+            inp = {"config": sess.cfg, "history": sess.history, "k": k, "phase": ph, "model_index": idx}
             if isinstance(mo, dict) and "driver_error" in mo:
                 ctx.disagree("verdict", inp, mo, None)
                 continue
             ctx.count("verdict:" + r["verdict"])
             ctx.count("phase:" + ph)
+            ctx.count("kill_points:" + sess.kind)
             bad = []
             # files present at the kill
             real_files = {json.dumps(sess.table[f]) for f in r["snapshot"] if f in sess.table}
@@ -380,7 +563,7 @@ def projections(seq):
 
 
 def pool_trace_check(ctx):
-    ss = [s for s in sessions(ctx) if s.clean_rc == 0 and len(s.data["chrs"]) >= 2]
+    ss = [s for s in sessions(ctx) if s.kind == "plain" and s.clean_rc == 0 and len(s.data["chrs"]) >= 2]
     if not ss:
         return
     sess = ss[0]
@@ -423,8 +606,9 @@ def classify(sess, k, ph):
 def judge(ctx, sess, k, ph, r, threads=1):
     if r["verdict"] in ("EQUAL", "NOCRASH"):
         return
-    kind = ("resume_silently_wrong:" if r["verdict"] == "DIFF" else "resume_fails:") + classify(sess, k, ph)
-    ctx.fail(kind, {"config": sess.cfg, "k": k, "phase": ph, "threads": threads},
+    kind = ("resume_silently_wrong:" if r["verdict"] == "DIFF" else "resume_fails:") + \
+        ("" if sess.kind == "plain" else sess.kind + ":") + classify(sess, k, ph)
+    ctx.fail(kind, {"config": sess.cfg, "history": sess.history, "k": k, "phase": ph, "threads": threads},
              "kill %s mutation %d %s; --resume: %s %s" % ("after" if ph == "a" else "before", k,
                                                           [[o, p] for n, o, p in sess.muts if n == k], r["verdict"], r["detail"][:400]))
 
@@ -433,15 +617,24 @@ def oracle(ctx, disagreements, broken):
     try:
         for sess in sessions(ctx):
             if sess.clean_rc != 0:
-                ctx.fail("clean_run_fails", {"config": sess.cfg, "k": 0, "phase": "b", "threads": 1}, sess.clean_log[-500:])
+                ctx.fail("clean_run_fails", {"config": sess.cfg, "history": sess.history, "k": 0, "phase": "b", "threads": 1},
+                         sess.clean_log[-500:])
                 continue
+            if sess.kind == "dirty" and getattr(sess, "ref_outputs", None) not in (None, sess.clean_outputs):
+                # the uninterrupted fresh run over the leftovers must give what it gives in an empty folder
+                ctx.fail("fresh_run_over_leftovers_differs", {"config": sess.cfg, "history": sess.history, "k": 0, "phase": "b",
+                                                               "threads": 1}, "final files differ from those of a run in an empty folder")
             pts = sess.points(ctx)
             # the disagreeing kill points first (they are cached when the correspondence ran them)
             first = [(d["input"]["k"], d["input"]["phase"]) for d in disagreements
-                     if d["op"] == "crash_point" and d["input"].get("config") == vlib.canon(sess.cfg)]
+                     if d["op"] == "crash_point" and d["input"].get("config") == vlib.canon(sess.cfg)
+                     and d["input"].get("history") == vlib.canon(sess.history)]
             pts = first + [p for p in pts if p not in first]
-            if broken and ctx.tier == "quick":
-                # something no longer checks: look harder
+            mine = [d for d in disagreements if isinstance(d.get("input"), dict) and
+                    d["input"].get("config") == vlib.canon(sess.cfg) and d["input"].get("history") == vlib.canon(sess.history)]
+            general = [b for b in broken if not b.startswith("correspondence:")]
+            if ctx.tier == "quick" and (mine or general):
+                # something no longer checks (for this scenario, or a proof / the driver): look at every kill point
                 allp = [(k, ph) for k in range(sess.first_point(), sess.muts[-1][0] + 1) for ph in "ba"]
                 pts = pts + [p for p in allp if p not in pts]
             res = run_points(ctx, sess, pts)
@@ -449,7 +642,7 @@ def oracle(ctx, disagreements, broken):
                 judge(ctx, sess, k, ph, r)
             ctx.count("oracle_points", len(pts))
         # sampled kill points under a process pool (mutation numbering is schedule dependent: judged by the property only)
-        multi = [s for s in sessions(ctx) if s.clean_rc == 0 and len(s.data["chrs"]) >= 2]
+        multi = [s for s in sessions(ctx) if s.kind == "plain" and s.clean_rc == 0 and len(s.data["chrs"]) >= 2]
         if multi:
             sess = multi[0]
             last = sess.muts[-1][0]
@@ -460,7 +653,8 @@ def oracle(ctx, disagreements, broken):
             for k, r in zip(ks, rs):
                 if r["verdict"] not in ("EQUAL", "NOCRASH"):
                     ctx.fail(("resume_silently_wrong:" if r["verdict"] == "DIFF" else "resume_fails:") + "pool",
-                             {"config": sess.cfg, "k": k, "phase": "a", "threads": 2}, "%s %s" % (r["verdict"], r["detail"][:400]))
+                             {"config": sess.cfg, "history": None, "k": k, "phase": "a", "threads": 2},
+                             "%s %s" % (r["verdict"], r["detail"][:400]))
             ctx.count("oracle_pool_points", len(ks))
     finally:
         st = getattr(ctx, "_c07", None)
@@ -474,13 +668,23 @@ def replay(ctx, failure):
     cfg = inp["config"]
     base = tempfile.mkdtemp(prefix="isoverif_c07_replay_")
     try:
-        sess = Session(base, 0, cfg)
+        h = inp.get("history")
+        data = R.make_dataset(cfg, os.path.join(base, "data"))
+        if h and h["kind"] == "dirty":
+            sess = DirtySession(base, 0, cfg, data, h["k1"], h["ph1"])
+        elif h and h["kind"] == "saves":
+            sess = SavesSession(base, 0, cfg, data, h["kA"])
+        else:
+            sess = Session(base, 0, cfg, data)
         if sess.clean_rc != 0:
             return True
         if inp["k"] == 0:
+            if h and h["kind"] == "dirty":
+                return Session(base, 1, cfg, data).clean_outputs != sess.clean_outputs
             return False
         wd = os.path.join(base, "replay")
-        r = R.crash_resume(wd, cfg, sess.data, inp["k"], inp["phase"], sess.clean_outputs, threads=inp.get("threads", 1))
+        r = R.crash_resume(wd, cfg, sess.data, inp["k"], inp["phase"], sess.clean_outputs, threads=inp.get("threads", 1),
+                           prepare=sess.prepare, args=sess.args, prefix=sess.prefix)
         print("  kill %s mutation %d, --resume: %s %s" % (inp["phase"], inp["k"], r["verdict"], r["detail"][:300]))
         return r["verdict"] not in ("EQUAL", "NOCRASH")
     finally:
